@@ -113,6 +113,10 @@ impl futures::Stream for Seq {
     }
 }
 
+// the default (empty) prefetch hooks
+impl fluent_fallback::generator::BundleIterator for Seq {}
+impl fluent_fallback::generator::BundleStream for Seq {}
+
 impl BundleGenerator for Gen {
     type Resource = FluentResource;
     type LocalesIter = std::vec::IntoIter<LanguageIdentifier>;
@@ -215,6 +219,23 @@ fn run(payload: &str) -> String {
             ["clr"] => {
                 errors.clear();
                 outs.push("ok".to_string());
+                continue;
+            }
+            // `pf`: Bundles::prefetch_sync / prefetch_async (whichever the mode allows).  The source's hook is the default,
+            // empty one: a prefetch generates no bundle, answers nothing, reports nothing - at any point of a history
+            ["pf"] => {
+                if sync {
+                    bundles.prefetch_sync();
+                    outs.push("ok".to_string());
+                } else {
+                    outs.push(match drive(bundles.prefetch_async()) {
+                        Some(()) => "ok".to_string(),
+                        None => "STALLED".to_string(),
+                    });
+                }
+                if errors.iter().map(canon_loc_err).collect::<Vec<_>>() != before {
+                    outs.push("PREFETCH-REPORTED-ERRORS".to_string());
+                }
                 continue;
             }
             ["v", k] if shadow => parse_key(k).map(|k| {
